@@ -34,61 +34,6 @@ var vfRuleSets = [][]vfRule{
 	{{0, "GET", "/aa/bb"}, {0, "*", "/aa/bb"}, {1, "GET", "/aa/{g}/bb"}},
 }
 
-func vfMethodName(i int) string {
-	if i == 0 {
-		return "/vf.S/M0"
-	}
-	return "/vf.S/M1"
-}
-
-type vfBuilt struct {
-	root  *path
-	rules []vfRule   // including implicit rules
-	tmpls []*refTmpl // parsed reference templates, parallel to rules
-}
-
-// vfBuild registers the rules in the given order with the real addRule.
-func vfBuild(set []vfRule, order []int) *vfBuilt {
-	in := schemaRoute()
-	out := newFakeMD("vf.Resp", strField("r"))
-	descs := []*fakeMethod{
-		{full: "vf.S.M0", in: in, out: out},
-		{full: "vf.S.M1", in: in, out: out},
-	}
-	b := &vfBuilt{root: newPath()}
-	var all []vfRule
-	for i := 0; i < 2; i++ {
-		all = append(all, vfRule{i, "*", vfMethodName(i)})
-	}
-	for _, k := range order {
-		all = append(all, set[k])
-	}
-	for _, r := range all {
-		rule := vfHTTPRule(r.verb, r.tmpl)
-		if r.tmpl == vfMethodName(r.m) {
-			rule.Body = "*"
-		}
-		if err := b.root.addRule(rule, descs[r.m], vfMethodName(r.m)); err != nil {
-			vfFail("rule set of the family rejected by addRule: " + r.tmpl)
-		}
-		t, st := refParseTemplate(r.tmpl)
-		if st != refValid {
-			vfFail("rule set of the family is not valid per the reference grammar: " + r.tmpl)
-		}
-		b.rules = append(b.rules, r)
-		b.tmpls = append(b.tmpls, t)
-	}
-	return b
-}
-
-func vfIdentityOrder(n int) []int {
-	o := make([]int, n)
-	for i := range o {
-		o[i] = i
-	}
-	return o
-}
-
 func vfVerb() string {
 	switch vfChoice(3) {
 	case 0:
@@ -101,38 +46,6 @@ func vfVerb() string {
 
 func vfFieldPath(fds []interface{ Name() string }) string { return "" }
 
-// vfParamsMatch: the params with a field path are exactly the rule's variables with the reference
-// captures (order is not part of the claim); params without a field path carry no value.
-func vfParamsMatch(ps params, t *refTmpl, caps []string) bool {
-	used := make([]bool, len(t.vars))
-	for _, p := range ps {
-		if len(p.fds) == 0 {
-			continue
-		}
-		f := vfParamField(p)
-		val := p.val.String()
-		found := false
-		for k, v := range t.vars {
-			if !used[k] && v.field == f && caps[k] == val {
-				used[k] = true
-				found = true
-				break
-			}
-		}
-		if !found {
-			return false
-		}
-	}
-	for _, u := range used {
-		if !u {
-			return false
-		}
-	}
-	return true
-}
-
-func vfVerbOK(r vfRule, verb string) bool { return r.verb == "*" || r.verb == verb }
-
 // VerifH_match_sound (C01): whatever match dispatches is covered by a rule of that method under the
 // liberal reading of ':' and carries exactly the reference captures.
 func VerifH_match_sound() {
@@ -143,33 +56,6 @@ func VerifH_match_sound() {
 	vfCheckSound(b, route, verb)
 }
 
-// vfCheckSound: whatever match dispatches is covered by a rule of that method (liberal ':').
-func vfCheckSound(b *vfBuilt, route, verb string) {
-	m, ps, err := b.root.match(route, verb)
-	if err != nil {
-		vfCover("not-dispatched")
-		return
-	}
-	vfCover("dispatched")
-	segs, ok := refSplit(route)
-	vfCheck(ok, "dispatched although the path is not a sequence of non-empty segments")
-	covered := false
-	for i, r := range b.rules {
-		if vfMethodName(r.m) != m.name || !vfVerbOK(r, verb) {
-			continue
-		}
-		mok, caps := refMatch(b.tmpls[i], segs, false)
-		if mok && vfParamsMatch(ps, b.tmpls[i], caps) {
-			covered = true
-			if len(b.tmpls[i].vars) > 0 {
-				vfCover("captured")
-			}
-			break
-		}
-	}
-	vfCheck(covered, "request dispatched to a method none of whose rules covers verb+path with these captures")
-}
-
 // VerifH_match_complete (C02 a,b): a strictly matching rule implies dispatch to a method owning a
 // matching rule, and a literal spelling beats a wildcard/variable at the same top-level position.
 func VerifH_match_complete() {
@@ -178,59 +64,6 @@ func VerifH_match_complete() {
 	verb := vfVerb()
 	route := vfRoute(vfBound(8, 10))
 	vfCheckComplete(b, route, verb)
-}
-
-// vfCheckComplete: a strictly matching rule implies dispatch; literal beats wildcard.
-func vfCheckComplete(b *vfBuilt, route, verb string) {
-	segs, ok := refSplit(route)
-	if !ok {
-		return
-	}
-	strictHit := make([]bool, len(b.rules))
-	any := false
-	for i, r := range b.rules {
-		if !vfVerbOK(r, verb) {
-			continue
-		}
-		if mok, _ := refMatch(b.tmpls[i], segs, true); mok {
-			strictHit[i] = true
-			any = true
-		}
-	}
-	if !any {
-		vfCover("no-rule-matches")
-		return
-	}
-	m, _, err := b.root.match(route, verb)
-	vfCheck(err == nil, "a registered rule matches verb and path but the request was not dispatched")
-	vfCover("dispatched")
-	// the chosen method owns a matching rule that is not literal-dominated by another method's rule
-	owns, undominated := false, false
-	for i, r := range b.rules {
-		if vfMethodName(r.m) != m.name || !vfVerbOK(r, verb) {
-			continue
-		}
-		if mok, _ := refMatch(b.tmpls[i], segs, false); !mok {
-			continue
-		}
-		owns = true
-		dom := false
-		for j, r2 := range b.rules {
-			if r2.m != r.m && strictHit[j] && refDominates(b.tmpls[j], b.tmpls[i]) {
-				dom = true
-			}
-			if r2.m != r.m && strictHit[j] && refDominates(b.tmpls[i], b.tmpls[j]) {
-				vfCover("literal-won")
-			}
-		}
-		if !dom {
-			undominated = true
-		} else {
-			vfCover("dominated-candidate")
-		}
-	}
-	vfCheck(owns, "dispatched to a method that owns no matching rule")
-	vfCheck(undominated, "a wildcard/variable rule won over another method's literal rule")
 }
 
 // VerifH_match_order (C02 c): the outcome does not depend on registration order.
